@@ -3,6 +3,7 @@
   Pure part (parsing / printing / stepping); `Main.lean` does the IO.
 -/
 import AmVerif.Model.Machine
+import AmVerif.Model.QueueProto
 import AmVerif.Model.RpcCodec
 import AmVerif.Model.Time
 namespace Am
@@ -124,6 +125,8 @@ structure DState where
   rules : List Rule := []
   fuel : Nat := 200
   codec : CodecState := {}
+  qp : QP.St := { flag := false, queue := 0, pcs := [] }
+  qprc : Bool := true
 
 def showState (m : Mach) (res : String) : String :=
   let evs := " ".intercalate ((m.log.filter (· != .errInternal)).map showEv)
@@ -227,8 +230,33 @@ def stepHelpers (toks : List String) : Option String :=
   | ["ht", "tick", t, i] => i.toNat?.map (fun i => toString (tTick (parseList t) i))
   | _ => none
 
+def showPc : QP.Pc → String
+  | .idle => "idle" | .pre => "pre" | .cas => "cas" | .loop => "loop"
+  | .release => "release" | .recheck => "recheck" | .done => "done"
+
+/-- queue protocol commands (C04): `qp init <recheck>`, `qp spawn`, `qp step <i>`. -/
+def stepQP (d : DState) (toks : List String) : Option (DState × String) :=
+  match toks with
+  | ["qp", "init", rc] =>
+    some ({ d with qp := { flag := false, queue := 0, pcs := [] }, qprc := rc == "1" }, "ok")
+  | ["qp", "spawn"] =>
+    some ({ d with qp := { d.qp with pcs := d.qp.pcs ++ [.idle] } }, s!"thread={d.qp.pcs.length}")
+  | ["qp", "step", i] =>
+    match i.toNat? with
+    | none => some (d, "bad-op")
+    | some i =>
+      match QP.step d.qprc d.qp i with
+      | none => some (d, "stuck")
+      | some s' =>
+        some ({ d with qp := s' },
+          s!"pc={showPc (s'.pcs.getD i .idle)} flag={if s'.flag then 1 else 0} q={s'.queue} holders={QP.holders s'}")
+  | _ => none
+
 def stepLine (d : DState) (line : String) : DState × String :=
   let toks0 := (line.trimAscii.toString.splitOn " ").filter (· != "")
+  match stepQP d toks0 with
+  | some r => r
+  | none =>
   match stepHelpers toks0 with
   | some out => (d, out)
   | none =>
